@@ -184,7 +184,7 @@ def run(ctx, only=None):
         order = gen_wait.ORDER if gen_wait is not None else []
         lines = ["cfg " + " ".join("1" if (cfg is None or cfg.get(k, True)) else "0" for k in order)]
         for s in msc:
-            lines += s.model_lines()
+            lines += s.model_lines([l for l in res[s.id]["lines"] if l.startswith("K ")])
         mout = ctx.model(lines, exe=exe)
         mres = oracle.parse_model(lines, mout)
         for s in msc:
